@@ -102,8 +102,10 @@ func VerifC05RoundTrip() {
 		sc.Base = &ast.ChordBase{Degree: verifDegreeNode(bl, ba)}
 	}
 	si, serr := NewSyllableASTConverter(scale).Convert(sc)
+	// both the degree text and the note names (single accidentals only) are writable here, so
+	// the piece must convert from either notation
+	vf.Assert("chord-writable-both-ways-converts-both-ways", serr == nil)
 	if serr != nil {
-		// the name notation may refuse spellings it cannot express; never a different degree
 		vf.Reach("name-text-rejected")
 		return
 	}
